@@ -174,6 +174,7 @@ CORPUS = [
     # witnesses of the known findings (they must keep matching their predicates)
     _c("youtube.com/watch?v=abcdefghijk&t=1", ["swap", "com", "co.uk"], ss=True),
     _c("http://fr.com/", ["swap", "com", "co.uk"], ss=True),
+    _c("https://www.facebook.com/PERMALINK.PHP?story_fbid=1&id=2", ["norm", "escape-all", 0], pa=True),
 ]
 
 FIXED_BASES = [
@@ -294,7 +295,7 @@ def cases(rng, tier):
                 for ss, pa in ((False, False), (True, True)):
                     yield _c(u, ["norm", name, seed], ss, pa)
     # seeded random: random base (itself possibly transformed), one transformation of the family
-    n = 20000 if quick else 200000
+    n = 14000 if quick else 200000
     for _ in range(n):
         u = nc.random_url(rng)
         if rng.random() < 0.3:
@@ -586,6 +587,25 @@ def kf_domain_keyed(case, failure):
     (per-domain query filters of facebook.com / youtube.com, the platform_aware branch)"""
     u, v = _pair(case)
     return case["T"][0] == "swap" and case["ss"] and v is not None and (_domain_keyed(u, case["pa"]) or _domain_keyed(v, case["pa"])) and " but for T(u) = " in failure
+
+
+def kf_platform_escaped(case, failure):
+    """platform_aware=True: the facebook / youtube rewriting reads the string before it is
+    unescaped (D53), so the spelling of an escape decides what the parser recognizes"""
+    u, v = _pair(case)
+    if not case["pa"] or case["T"][0] != "norm" or case["T"][1] not in ESCAPE_T or v is None or " but for T(u) = " not in failure:
+        return False
+    from ural.facebook import is_facebook_url
+    from ural.youtube import is_youtube_url
+
+    for x in (u, v):
+        try:
+            e = nc.prepare(x.lower(), {"platform_aware": True})["ensured"]
+        except Exception:  # noqa
+            continue
+        if is_facebook_url(e) or is_youtube_url(e):
+            return True
+    return False
 
 
 def kf_lang_vs_suffix(case, failure):
